@@ -1,4 +1,227 @@
-(* C04 property theorems only. *)
-From V Require Import lib.Verdict C04.Model.
-Theorem C04_stub : True. Proof. exact I. Qed.
-Print Assumptions C04_stub.
+(* C04 property theorems only.  Model: Session.v (step functions of ShouldRespond,
+   shouldRespondDelta, Send, sendDelta, Proxy watched-resource helpers) and Model.v (closed loops).
+   nil_policy: NilCrash = the ErrorDetail closure as first read (dereferences nil, K14),
+   NilIgnore = the closure guards nil. *)
+From V Require Import lib.Verdict C04.Model C04.Proofs C04.ProofsSotw C04.ProofsDelta.
+Open Scope N_scope.
+
+(* ---------------------------------------------------------------- rows, SotW *)
+
+Theorem C04_first_request_responds : forall p st r,
+  r_err r = None -> should_unsubscribe r = false -> r_nonce r = 0 ->
+  should_respond p st r = (Resp true [], new_watched_resource st (r_ty r) (r_names r)).
+Proof. exact first_request_responds. Qed.
+Print Assumptions C04_first_request_responds.
+
+(* unknown type on this stream: answered even though the request carries a nonce *)
+Theorem C04_reconnect_responds : forall p st r,
+  r_err r = None -> should_unsubscribe r = false -> st (r_ty r) = None ->
+  should_respond p st r = (Resp true [], new_watched_resource st (r_ty r) (r_names r)).
+Proof. exact reconnect_responds. Qed.
+Print Assumptions C04_reconnect_responds.
+
+Theorem C04_new_watch_records_request : forall st t ns,
+  exists w, new_watched_resource st t ns t = Some w /\ names w = norm ns /\ nonce_sent w = 0.
+Proof. exact new_watched_has_names. Qed.
+Print Assumptions C04_new_watch_records_request.
+
+Theorem C04_added_names_respond : forall p st r w,
+  r_err r = None -> should_unsubscribe r = false -> st (r_ty r) = Some w ->
+  r_nonce r <> 0 -> r_nonce r = nonce_sent w -> diff (norm (r_names r)) (names w) <> [] ->
+  (exists s, fst (should_respond p st r) = Resp true s) /\
+  record (snd (should_respond p st r)) (r_ty r) = norm (r_names r).
+Proof. exact added_names_respond. Qed.
+Print Assumptions C04_added_names_respond.
+
+Theorem C04_ack_silent : forall p st r w,
+  r_err r = None -> should_unsubscribe r = false -> st (r_ty r) = Some w ->
+  r_nonce r <> 0 -> r_nonce r = nonce_sent w -> always_respond w = false ->
+  norm (r_names r) = names w ->
+  fst (should_respond p st r) = Resp false [] /\
+  record (snd (should_respond p st r)) (r_ty r) = names w.
+Proof. exact ack_silent. Qed.
+Print Assumptions C04_ack_silent.
+
+(* ... and the state after the ACK is one where the same ACK is silent again *)
+Theorem C04_ack_silent_stable : forall p st r w,
+  r_err r = None -> should_unsubscribe r = false -> st (r_ty r) = Some w ->
+  r_nonce r <> 0 -> r_nonce r = nonce_sent w -> always_respond w = false ->
+  norm (r_names r) = names w ->
+  fst (should_respond p (snd (should_respond p st r)) r) = Resp false [].
+Proof. exact ack_silent_stable. Qed.
+Print Assumptions C04_ack_silent_stable.
+
+Theorem C04_nack_silent : forall st r m,
+  r_err r = Some m ->
+  fst (should_respond NilIgnore st r) = Resp false [] /\
+  record (snd (should_respond NilIgnore st r)) (r_ty r) = record st (r_ty r).
+Proof. exact nack_silent. Qed.
+Print Assumptions C04_nack_silent.
+
+(* with a watch on record the NACK row holds for the code as it stands too *)
+Theorem C04_nack_silent_watched : forall p st r m w,
+  r_err r = Some m -> st (r_ty r) = Some w ->
+  should_respond p st r = (Resp false [], upd st (r_ty r) (Some (set_err w m))).
+Proof. exact nack_silent_watched. Qed.
+Print Assumptions C04_nack_silent_watched.
+
+Theorem C04_stale_nonce_silent : forall p st r w,
+  r_err r = None -> should_unsubscribe r = false -> st (r_ty r) = Some w ->
+  r_nonce r <> 0 -> r_nonce r <> nonce_sent w ->
+  should_respond p st r = (Resp false [], st).
+Proof. exact stale_nonce_silent. Qed.
+Print Assumptions C04_stale_nonce_silent.
+
+Theorem C04_unsubscribe_deletes_watch : forall p st r,
+  r_err r = None -> should_unsubscribe r = true ->
+  fst (should_respond p st r) = Resp false [] /\ snd (should_respond p st r) (r_ty r) = None.
+Proof. exact unsubscribe_deletes_watch. Qed.
+Print Assumptions C04_unsubscribe_deletes_watch.
+
+(* ---------------------------------------------------------------- rows, delta *)
+
+Theorem C04_delta_first_responds : forall p st r,
+  d_err r = None -> st (d_ty r) = None -> fst (should_respond_delta p st r) = Resp true [].
+Proof. exact delta_first_responds. Qed.
+Print Assumptions C04_delta_first_responds.
+
+Theorem C04_delta_stale_nonce_silent : forall p st r w,
+  d_err r = None -> st (d_ty r) = Some w -> d_nonce r <> 0 -> d_nonce r <> nonce_sent w ->
+  should_respond_delta p st r = (Resp false [], st).
+Proof. exact delta_stale_silent. Qed.
+Print Assumptions C04_delta_stale_nonce_silent.
+
+Theorem C04_delta_nack_silent : forall st r m,
+  d_err r = Some m ->
+  fst (should_respond_delta NilIgnore st r) = Resp false [] /\
+  record (snd (should_respond_delta NilIgnore st r)) (d_ty r) = record st (d_ty r).
+Proof. exact delta_nack_silent. Qed.
+Print Assumptions C04_delta_nack_silent.
+
+Theorem C04_delta_ack_silent : forall p st r w,
+  d_err r = None -> st (d_ty r) = Some w -> d_nonce r = nonce_sent w ->
+  d_sub r = [] -> d_unsub r = [] -> d_init r = [] -> always_respond w = false ->
+  fst (should_respond_delta p st r) = Resp false [].
+Proof. exact delta_ack_silent. Qed.
+Print Assumptions C04_delta_ack_silent.
+
+(* deltaWatchedResources is (existing + subscribe + initial) - unsubscribe, "*" never a name *)
+Theorem C04_delta_names_are_set_update : forall ns r res wc ch,
+  delta_watched_resources ns r = (res, wc, ch) ->
+  forall x, In x res <->
+    ((In x ns \/ In x (d_sub r) \/ In x (d_init r)) /\ ~ In x (d_unsub r) /\ x <> star).
+Proof. exact dwr_names_spec. Qed.
+Print Assumptions C04_delta_names_are_set_update.
+
+(* ---------------------------------------------------------------- no crash on any sequence *)
+
+(* full statement for the code as first read: false (K14) *)
+Theorem C04_total_refuted : exists ops, crashed (fst (run NilCrash empty_watched ops)) = true.
+Proof. exact total_refuted. Qed.
+Print Assumptions C04_total_refuted.
+
+(* ... and the only crash is a request with error_detail for a type without a watch *)
+Theorem C04_total_partial : forall st o,
+  fst (step NilCrash st o) = Crash -> unwatched_nack st o.
+Proof. exact step_crash_only_unwatched_nack. Qed.
+Print Assumptions C04_total_partial.
+
+(* once the closure guards nil: every op of every sequence, conformant or not, is executed and
+   none crashes *)
+Theorem C04_total_with_nil_guard : forall ops st,
+  crashed (fst (run NilIgnore st ops)) = false /\
+  List.length (fst (run NilIgnore st ops)) = List.length ops.
+Proof. intros ops st. split; [apply run_ignore_no_crash|apply run_ignore_length]. Qed.
+Print Assumptions C04_total_with_nil_guard.
+
+(* ---------------------------------------------------------------- no request/response loop *)
+
+(* along every op sequence (requests of both protocols and sends, any order, any state) the
+   number of answers is at most the number of requests that are a first request, a reconnect,
+   a subscription change on the current nonce, or a warming-forced re-answer *)
+Theorem C04_no_loop_partial : forall ops st,
+  let c := fst (count_run st ops zero_counts) in
+  (n_resp c <= n_first c + n_reconnect c + n_subchange c + n_forced c)%nat.
+Proof. intros ops st. apply (count_run_bound ops st zero_counts). cbn. apply le_n. Qed.
+Print Assumptions C04_no_loop_partial.
+
+(* a forced answer clears AlwaysRespond: it cannot repeat without a new CDS (re)initialisation *)
+Theorem C04_forced_answer_is_one_shot : forall st r,
+  req_cause st r = Some CForced ->
+  exists w', snd (should_respond NilIgnore st r) (r_ty r) = Some w' /\ always_respond w' = false.
+Proof. exact forced_consumes_flag. Qed.
+Print Assumptions C04_forced_answer_is_one_shot.
+
+Theorem C04_delta_forced_answer_is_one_shot : forall st r,
+  dreq_cause st r = Some CForced ->
+  exists w', snd (should_respond_delta NilIgnore st r) (d_ty r) = Some w' /\ always_respond w' = false.
+Proof. exact delta_forced_consumes_flag. Qed.
+Print Assumptions C04_delta_forced_answer_is_one_shot.
+
+(* ---------------------------------------------------------------- record = client subscription *)
+
+(* SotW, any type (wildcard or not), every interleaving of client subscription changes, client
+   ACKs/NACKs, server processing, server pushes and traffic of other types, FIFO channels, the
+   client possibly holding a nonce of an earlier stream: when both channels are empty and the
+   last processed message was no NACK, the server's record is the client's subscription *)
+Theorem C04_record_matches_client_sotw : forall t, is_debug t = false ->
+  forall st0 cn0 ls, st0 t = None ->
+  let s := srun t (sinit st0 cn0) ls in
+  s_c2s s = [] -> s_s2c s = [] -> s_np s = true -> s_ln s = false ->
+  record (s_srv s) t = norm (s_S s).
+Proof. exact record_matches_client_sotw. Qed.
+Print Assumptions C04_record_matches_client_sotw.
+
+(* delta, non-wildcard types, clients that change subscriptions only in spontaneous requests:
+   whenever the request channel is empty (responses may be in flight, last message may even be
+   a NACK) the record is the client's subscription *)
+Theorem C04_record_matches_client_delta_spontaneous : forall t, is_wildcard t = false ->
+  forall st0 cn0 ls, st0 t = None -> forallb class1_label ls = true ->
+  let s := drun t (dinit st0 cn0) ls in
+  x_c2s s = [] -> record_is (x_srv s) t (x_S s).
+Proof. exact record_matches_client_delta_spontaneous. Qed.
+Print Assumptions C04_record_matches_client_delta_spontaneous.
+
+(* delta, clients that piggyback changes on ACKs (Envoy): full statement false (K13) *)
+Theorem C04_record_matches_client_delta_piggyback_refuted :
+  exists t ls, is_wildcard t = false /\
+    let s := drun t (dinit empty_watched 0) ls in
+    x_c2s s = [] /\ x_s2c s = [] /\ x_ln s = false /\ ~ record_is (x_srv s) t (x_S s).
+Proof. exact record_matches_client_delta_piggyback_refuted. Qed.
+Print Assumptions C04_record_matches_client_delta_piggyback_refuted.
+
+(* ... true as long as no request that carried changes met the stale-nonce or NACK branch *)
+Theorem C04_record_matches_client_delta_piggyback_partial : forall t, is_wildcard t = false ->
+  forall st0 cn0 ls, st0 t = None ->
+  let s := drun t (dinit st0 cn0) ls in
+  x_c2s s = [] -> x_ok s = true -> record_is (x_srv s) t (x_S s).
+Proof. exact record_matches_client_delta_partial. Qed.
+Print Assumptions C04_record_matches_client_delta_piggyback_partial.
+
+(* ---------------------------------------------------------------- hypotheses are satisfiable *)
+
+Example C04_sotw_loop_nonvacuous :
+  let s := srun EDS (sinit empty_watched 7)
+             [CSub [2; 1]; SProc 1; SPush 2; CSub [3]; CRecv (Some 1); CRecv None; SProc 3; SProc 4; SProc 5;
+              CRecv None; SProc 6] in
+  s_c2s s = [] /\ s_s2c s = [] /\ s_np s = true /\ s_ln s = false /\ record (s_srv s) EDS = [3].
+Proof. vm_compute. repeat split. Qed.
+
+Example C04_delta_loop_nonvacuous :
+  let s := drun RDS (dinit empty_watched 0)
+             [DChange [1; 2] [] []; DProc 1 []; DPush 2 []; DChange [3] [1] []; DRecv None [] [];
+              DProc 3 []; DProc 4 []; DRecv (Some 1) [] []; DProc 5 []] in
+  forallb class1_label
+             [DChange [1; 2] [] []; DProc 1 []; DPush 2 []; DChange [3] [1] []; DRecv None [] [];
+              DProc 3 []; DProc 4 []; DRecv (Some 1) [] []; DProc 5 []] = true /\
+  x_c2s s = [] /\ x_ok s = true /\ record (x_srv s) RDS = [2; 3].
+Proof. vm_compute. repeat split. Qed.
+
+Example C04_rows_nonvacuous :
+  let st := send (snd (should_respond NilCrash empty_watched (mkReq RDS [1] 0 None))) RDS 5 true in
+  fst (should_respond NilCrash st (mkReq RDS [1] 5 None)) = Resp false [] /\
+  fst (should_respond NilCrash st (mkReq RDS [1; 2] 5 None)) = Resp true [2] /\
+  fst (should_respond NilCrash st (mkReq RDS [1; 2] 4 None)) = Resp false [] /\
+  fst (should_respond NilCrash st (mkReq RDS [1; 2] 5 (Some 1))) = Resp false [] /\
+  fst (should_respond NilCrash st (mkReq LDS [] 5 (Some 1))) = Crash.
+Proof. vm_compute. repeat split. Qed.
